@@ -180,7 +180,8 @@ func c11BackendCases(rnd *rand.Rand, thorough bool) []hostileCase {
 		for _, e := range []string{"MOVED", "MOVED ", "MOVED 1", "MOVED 1 ", "ASK 1", "ASK", "ask 1", "MOVED 1 x", "MOVED 1 1.2.3.4", "moved 99999 127.0.0.1:1", "MOVED -1 127.0.0.1:1",
 			"MOVED 1 127.0.0.1:1 extra words", "ASK 1 :", "MOVED  1  127.0.0.1:1", "MOVED\t1\t127.0.0.1:1", "MOVED 1 " + strings.Repeat("9", 5000), "ASK 1 \x00\xff\xfe", "CLUSTERDOWN", "CLUSTERDOWN ", "clusterdown Hash slot not served",
 			"MOVED 1 127.0.0.1:99999", "ASK 1 [::1]:1", "MOVED 18446744073709551616 127.0.0.1:1",
-			"A\u017fK 1 127.0.0.1:1", "A\u017f\u212a 1 127.0.0.1:1", "a\u017fk 1 127.0.0.1:1"} {
+			"A\u017fK 1 127.0.0.1:1", "A\u017f\u212a 1 127.0.0.1:1", "a\u017fk 1 127.0.0.1:1",
+			"MOVED 1 {SELF}", "ASK 1 {SELF}"} { // {SELF} = the address of the answering node: the redirection never ends
 			if rc != "plain" && len(e) > 40 {
 				continue
 			}
@@ -193,31 +194,33 @@ func c11BackendCases(rnd *rand.Rand, thorough bool) []hostileCase {
 		return fmt.Sprintf("%s %s %s %s 0 1 1 connected %s\n", id(i), addr, flags, master, slots)
 	}
 	bodies := map[string]string{
-		"empty":                "",
-		"only-newlines":        "\n\n\n",
-		"seven-fields":         "a b c d e f g\n",
-		"unknown-master-id":    line(1, "127.0.0.1:7001@17001", "myself,master", "-", "0-16383") + line(2, "127.0.0.1:7002@17002", "slave", id(99), ""),
-		"replica-of-replica":   line(1, "127.0.0.1:7001@17001", "myself,master", "-", "0-16383") + line(2, "127.0.0.1:7002@17002", "slave", id(1), "") + line(3, "127.0.0.1:7003@17003", "slave", id(2), "") + line(4, "127.0.0.1:7004@17004", "slave", id(3), "") + line(5, "127.0.0.1:7005@17005", "slave", id(4), ""),
-		"replica-of-itself":    line(1, "127.0.0.1:7001@17001", "myself,master", "-", "0-16383") + line(2, "127.0.0.1:7002@17002", "slave", id(2), ""),
-		"duplicate-ids":        line(1, "127.0.0.1:7001@17001", "master", "-", "0-100") + line(1, "127.0.0.1:7002@17002", "master", "-", "101-200") + line(1, "127.0.0.1:7003@17003", "slave", id(1), ""),
-		"address-without-port": line(1, "127.0.0.1@17001", "master", "-", "0-16383"),
-		"address-empty":        line(1, "@", "master", "-", "0-16383"),
-		"address-ipv6":         line(1, "[::1]:7001@17001", "master", "-", "0-16383"),
-		"slots-reversed":       line(1, "127.0.0.1:7001@17001", "master", "-", "500-100"),
-		"slots-negative":       line(1, "127.0.0.1:7001@17001", "master", "-", "-5 -1--3"),
-		"slots-huge-range":     line(1, "127.0.0.1:7001@17001", "master", "-", "0-99999999999"),
-		"slots-huge-single":    line(1, "127.0.0.1:7001@17001", "master", "-", "99999999999999999999"),
-		"slots-non-numeric":    line(1, "127.0.0.1:7001@17001", "master", "-", "a-b x 1-y"),
-		"slots-many-dashes":    line(1, "127.0.0.1:7001@17001", "master", "-", "1-2-3 ---"),
-		"slots-brackets":       line(1, "127.0.0.1:7001@17001", "master", "-", "[1->-abc] [ ] [] [5-<-"),
-		"slots-out-of-range":   line(1, "127.0.0.1:7001@17001", "master", "-", "16384 20000-30000 65536"),
-		"slot-single-16384":    line(1, "127.0.0.1:7001@17001", "master", "-", "0-100 16384"),
-		"slot-single-16383":    line(1, "127.0.0.1:7001@17001", "master", "-", "16383"),
-		"slot-single-65536":    line(1, "127.0.0.1:7001@17001", "master", "-", "5 65536"),
-		"slot-single-negative": line(1, "127.0.0.1:7001@17001", "master", "-", "0-5 -1"),
-		"slot-range-to-16384":  line(1, "127.0.0.1:7001@17001", "master", "-", "16000-16384"),
-		"slot-range-to-16383":  line(1, "127.0.0.1:7001@17001", "master", "-", "0-16383"),
-		"binary":               "\x00\xff\xfe \x01 \x02 \x03 \x04 \x05 \x06 \x07 \x08\n",
+		"empty":                                "",
+		"only-newlines":                        "\n\n\n",
+		"seven-fields":                         "a b c d e f g\n",
+		"unknown-master-id":                    line(1, "127.0.0.1:7001@17001", "myself,master", "-", "0-16383") + line(2, "127.0.0.1:7002@17002", "slave", id(99), ""),
+		"replica-of-replica":                   line(1, "127.0.0.1:7001@17001", "myself,master", "-", "0-16383") + line(2, "127.0.0.1:7002@17002", "slave", id(1), "") + line(3, "127.0.0.1:7003@17003", "slave", id(2), "") + line(4, "127.0.0.1:7004@17004", "slave", id(3), "") + line(5, "127.0.0.1:7005@17005", "slave", id(4), ""),
+		"replica-of-itself":                    line(1, "127.0.0.1:7001@17001", "myself,master", "-", "0-16383") + line(2, "127.0.0.1:7002@17002", "slave", id(2), ""),
+		"duplicate-ids":                        line(1, "127.0.0.1:7001@17001", "master", "-", "0-100") + line(1, "127.0.0.1:7002@17002", "master", "-", "101-200") + line(1, "127.0.0.1:7003@17003", "slave", id(1), ""),
+		"address-without-port":                 line(1, "127.0.0.1@17001", "master", "-", "0-16383"),
+		"address-empty":                        line(1, "@", "master", "-", "0-16383"),
+		"address-ipv6":                         line(1, "[::1]:7001@17001", "master", "-", "0-16383"),
+		"slots-reversed":                       line(1, "127.0.0.1:7001@17001", "master", "-", "500-100"),
+		"slots-negative":                       line(1, "127.0.0.1:7001@17001", "master", "-", "-5 -1--3"),
+		"slots-huge-range":                     line(1, "127.0.0.1:7001@17001", "master", "-", "0-99999999999"),
+		"slots-full-range-repeated-1500-times": line(1, "127.0.0.1:7001@17001", "master", "-", strings.Repeat("0-16383 ", 1500)),
+		"slots-one-slot-repeated-100000-times": line(1, "127.0.0.1:7001@17001", "master", "-", strings.Repeat("7 ", 100000)),
+		"slots-huge-single":                    line(1, "127.0.0.1:7001@17001", "master", "-", "99999999999999999999"),
+		"slots-non-numeric":                    line(1, "127.0.0.1:7001@17001", "master", "-", "a-b x 1-y"),
+		"slots-many-dashes":                    line(1, "127.0.0.1:7001@17001", "master", "-", "1-2-3 ---"),
+		"slots-brackets":                       line(1, "127.0.0.1:7001@17001", "master", "-", "[1->-abc] [ ] [] [5-<-"),
+		"slots-out-of-range":                   line(1, "127.0.0.1:7001@17001", "master", "-", "16384 20000-30000 65536"),
+		"slot-single-16384":                    line(1, "127.0.0.1:7001@17001", "master", "-", "0-100 16384"),
+		"slot-single-16383":                    line(1, "127.0.0.1:7001@17001", "master", "-", "16383"),
+		"slot-single-65536":                    line(1, "127.0.0.1:7001@17001", "master", "-", "5 65536"),
+		"slot-single-negative":                 line(1, "127.0.0.1:7001@17001", "master", "-", "0-5 -1"),
+		"slot-range-to-16384":                  line(1, "127.0.0.1:7001@17001", "master", "-", "16000-16384"),
+		"slot-range-to-16383":                  line(1, "127.0.0.1:7001@17001", "master", "-", "0-16383"),
+		"binary":                               "\x00\xff\xfe \x01 \x02 \x03 \x04 \x05 \x06 \x07 \x08\n",
 		"ten-thousand-nodes": func() string {
 			var b strings.Builder
 			for i := 0; i < 10000; i++ {
@@ -409,7 +412,7 @@ func (e *c11Env) start() error {
 		}
 		atomic.AddInt64(&e.served, 1)
 		e.r.Count("hostile_reply_served:"+class, 1)
-		return fakecluster.Reply{Raw: h.Data}, true
+		return fakecluster.Reply{Raw: bytes.Replace(h.Data, []byte("{SELF}"), []byte(e.bad.Addr), -1)}, true
 	}
 	svc, err := startRedisSvc(s, cl, cl.Addrs(), RedisOpts{ConnTimeout: 300 * time.Millisecond})
 	if err != nil {
